@@ -174,6 +174,8 @@ def plan(tier):
             for k in range(K):
                 units.append(('docs', [i], k, K))
     units.append(('examples',))
+    sunits, cfgs, variants = wrgraph.scale_units(tier, per_unit=4)
+    units += sunits
     return {
         'units': units,
         'rule': '%d abstract documents (5-6 skeletons with every single '
@@ -188,7 +190,9 @@ def plan(tier):
                 'variations on rich documents%s; then every single-defect '
                 'mutation (version, length, final newline x4, format, JSON '
                 'x4, line_endings x4) at every section it applies to; plus '
-                'the 7 specification examples. Oracle: records == '
+                'the 7 specification examples; plus a scale pass (boundary sizes '
+                'of every scalable quantity, LF and CRLF headers, defects after '
+                'the large sections). Oracle: records == '
                 'by-construction records == strict reference parse; '
                 'defective: DiffXParseError, intact prefix, linenum inside '
                 'the offending section. Non-trivial: variation or defect '
@@ -218,6 +222,44 @@ def run_unit(unit, tier):
             acc.violation(key, msg, payload)
         acc.outcome('ok' if not viols else 'violation')
 
+    if unit[0] == 'scale':
+        # boundary sizes: records (incl. logical line numbers) of documents
+        # with large / numerous / deep sections, the same with CRLF headers,
+        # and single defects placed AFTER the large sections
+        _, cfgs, variants = wrgraph.scale_units(tier, per_unit=4)
+        for ci, vi in unit[1]:
+            root, enc, le = variants[vi]
+            calls = wrgraph.scale_calls(cfgs[ci], enc, le)
+            secs0 = gen.from_calls(calls, root)
+            for g in (None, 'crlf-headers'):
+                kw = gen.apply_global(g) if g else {}
+                data, exp = gen.render([s_.clone() for s_ in secs0], **kw)
+                viols = check_wellformed(data, exp, 'scale')
+                judge([(k + ':scale', m[:1500]) for k, m in viols],
+                      {'kind': 'scale', 'cfg': cfgs[ci], 'variant': vi,
+                       'glob': g}, True)
+            _, exp_b = gen.render([s_.clone() for s_ in secs0])
+            for dlabel, si, f in gen.defects(secs0):
+                if si < len(secs0) - 4 or not dlabel.startswith(
+                        ('bad-json:truncated', 'length-missing',
+                         'no-final-newline:strip')):
+                    continue
+                secs = [s_.clone() for s_ in secs0]
+                if f(secs) is False:
+                    continue
+                data, _ = gen.render_defective(secs)
+                lo = exp_b[si]['line']
+                hi = lo + secs0[si].nlines + 1
+                lab = '%s:%s:scale' % (dlabel.split(':')[0],
+                                       secs0[si].sid.lstrip('.'))
+                viols = check_defective(data, exp_b[:si], lo, hi, lab)
+                if viols is None:
+                    continue
+                judge([(k, m[:1500]) for k, m in viols],
+                      {'kind': 'scale-defect', 'cfg': cfgs[ci],
+                       'variant': vi, 'defect': dlabel, 'si': si}, True)
+        acc.sample({'scale_configuration': cfgs[unit[1][0][0]]}, 1)
+        return acc
     if unit[0] == 'examples':
         for name, data in example_files():
             pref, perr = spec.parse(data)
@@ -313,6 +355,29 @@ def run_unit(unit, tier):
 
 def replay(payload):
     k = payload.get('kind')
+    if k in ('scale', 'scale-defect'):
+        _, cfgs, variants = wrgraph.scale_units('quick', per_unit=4)
+        root, enc, le = variants[payload['variant']]
+        secs0 = gen.from_calls(wrgraph.scale_calls(payload['cfg'], enc, le),
+                               root)
+        if k == 'scale':
+            kw = gen.apply_global(payload['glob']) if payload['glob'] else {}
+            data, exp = gen.render(secs0, **kw)
+            return [{'key': k_ + ':scale', 'msg': m}
+                    for k_, m in check_wellformed(data, exp, 'scale')]
+        _, exp_b = gen.render([s_.clone() for s_ in secs0])
+        for dlabel, si, f in gen.defects(secs0):
+            if dlabel == payload['defect'] and si == payload['si']:
+                secs = [s_.clone() for s_ in secs0]
+                f(secs)
+                data, _ = gen.render_defective(secs)
+                lo = exp_b[si]['line']
+                lab = '%s:%s:scale' % (dlabel.split(':')[0],
+                                       secs0[si].sid.lstrip('.'))
+                return [{'key': k_, 'msg': m} for k_, m in (check_defective(
+                    data, exp_b[:si], lo, lo + secs0[si].nlines + 1, lab)
+                    or [])]
+        return []
     if k == 'wellformed':
         viols = check_wellformed(from_jsonable(payload['data']),
                                  from_jsonable(payload['exp']),
